@@ -576,11 +576,14 @@ func evalTerm(t *Term, env map[string]uint64, memo map[*Term]uint64) uint64 {
 	case OpUF:
 		r = env[ufKey(t, env, memo)]
 	default:
-		a := bvConst(t.a.w, evalTerm(t.a, env, memo))
-		b := bvConst(t.b.w, evalTerm(t.b, env, memo))
+		av, bv := evalTerm(t.a, env, memo), evalTerm(t.b, env, memo)
+		var a, b *Term
 		if t.a.w == 0 {
-			a = boolConst(a.k&1 == 1)
-			b = boolConst(b.k&1 == 1)
+			a = boolConst(av&1 == 1)
+			b = boolConst(bv&1 == 1)
+		} else {
+			a = bvConst(t.a.w, av)
+			b = bvConst(t.b.w, bv)
 		}
 		c := mkBin(t.op, a, b)
 		if !c.isConst() {
